@@ -46,7 +46,7 @@ class iterable_storage(Storage):
             elif value is None:
                 pass
             else:
-                assert 'Unknown Python type: %r' % value
+                assert 'Unknown Python type: %r' % (value,)
         if len(types) != 1:
             return 'any'
         else:
